@@ -350,7 +350,6 @@ def cubicSpline (o : XOps α) (c : CCfg) (uw uh : List α) (udl udr : α) (inver
     let disc := o.sub (o.mul (o.mul (o.ofFloat 4.0) delta1) delta3) (o.mul delta2 delta2)
     let dep1 := o.add (o.mul (o.mul (o.ofFloat (-2.0)) b_) delta1) delta2
     let dep2 := delta1
-    let epsA := o.ofFloat c.eps
     let (out0, alts) :=
       if o.ge disc o.zero then
         let theta := o.div (o.atan2 (o.sqrt disc) (o.neg dep1)) (o.ofFloat 3.0)
@@ -363,10 +362,13 @@ def cubicSpline (o : XOps α) (c : CCfg) (uw uh : List α) (udl udr : α) (inver
         let scale := o.mul o.two (o.sqrt (o.neg dep2))
         let shift := o.add (o.neg b_) lcw
         let rs := [r1, r2, r3].map (fun r => o.add (o.mul r scale) shift)
-        let ok := rs.map (fun r => o.lt (o.sub lcw epsA) r && o.lt r (o.add rcw epsA))
-        let good := (rs.zip ok).filter (·.2) |>.map (·.1)
+        -- cubic.py (after the fix): the root with the smallest distance to the bin [lcw, rcw]; ties are admissible alternatives
+        let relu := fun (t : α) => if o.lt o.zero t then t else o.zero
+        let ds := rs.map (fun r => o.add (relu (o.sub lcw r)) (relu (o.sub r rcw)))
+        let dmin := ds.foldl (fun m d => if o.lt d m then d else m) (ds.getD 0 o.zero)
+        let good := (rs.zip ds).filter (fun rd => !(o.lt dmin rd.2)) |>.map (·.1)
         match good with
-        | [] => (rs.getD 0 o.zero, rs)      -- all masks 0: argsort order unspecified
+        | [] => (rs.getD 0 o.zero, rs)
         | g :: _ => (g, good)
       else if o.lt disc o.zero then
         let sq := o.sqrt (o.neg disc)
